@@ -33,6 +33,9 @@ type AAState struct {
 	Priv   *big.Int
 	ECHash func(c *ecref.Curve, data []byte) []byte
 	DER    bool // DER Ecdsa-Sig-Value instead of plain r||s
+	// Nonce, when set, is the ECDSA nonce of every signature (default nil: drawn from RNG).
+	// Monitors use it to obtain genuine responses whose r has a chosen shape.
+	Nonce *big.Int
 	// truth
 	Challenges [][]byte
 	LastM1     []byte
@@ -94,12 +97,17 @@ func (a *AAState) SignRSA(rnd []byte) []byte {
 // SignEC signs RND.IFD with ECDSA (plain or DER).
 func (a *AAState) SignEC(rnd []byte) []byte {
 	h := a.ECHash(a.Curve, rnd)
-	for {
+	for tries := 0; ; {
 		kb := make([]byte, a.Curve.ByteLen+8)
 		for i := range kb {
 			kb[i] = byte(a.RNG.Uint32())
 		}
-		r, s, ok := a.Curve.Sign(a.Priv, h, new(big.Int).SetBytes(kb))
+		nonce := new(big.Int).SetBytes(kb)
+		if a.Nonce != nil && tries == 0 {
+			nonce = a.Nonce
+		}
+		tries++
+		r, s, ok := a.Curve.Sign(a.Priv, h, nonce)
 		if !ok {
 			continue
 		}
